@@ -259,7 +259,7 @@ def check(run):
         run.violation(dict(kind='harness-build-failed', log=out[-3000:],
                            explanation='the correspondence harness no longer builds against the tree'), no_input=True)
         return run.finish()
-    n = run.budget(500, 10000)
+    n = run.budget(500, 8000)
     outp = os.path.join(run.work, 'out.jsonl')
     rc, o = vlib.run_harness('c08', ['-seed', run.seed, '-n', n, '-out', outp])
     if rc != 0:
@@ -343,6 +343,16 @@ def check(run):
                           name='replay_corr_c%d.json' % h, no_input=True)
         if not run.proof_ok():
             run.proof_violation()
+    if not run.quick() and not run.violations:
+        # independent re-check of the compiled proofs (kernel re-typechecking of the .vo closure, axiom summary)
+        rc, out = vlib.sh('coqchk -silent -o -Q theories Teleport Teleport.Props.C08 Teleport.Refuted.C08_refuted',
+                          cwd=vlib.COQ, timeout=1500)
+        okchk = rc == 0 and 'Axioms: <none>' in ' '.join(out.split())
+        run.coverage['coqchk'] = 'ok: axioms <none>' if okchk else 'FAILED: ' + out[-600:]
+        if not okchk:
+            run.violation(dict(kind='coqchk-failed', log=out[-3000:],
+                               explanation='coqchk does not validate the compiled proofs of C08 (or reports axioms)'),
+                          name='replay_coqchk.json', no_input=True)
     return run.finish()
 
 
